@@ -326,6 +326,10 @@ REGISTRY["C13"]["teq"].append({"engine": "conc", "quick": {"n": 24, "mode": "mem
 REGISTRY["C12"]["teq"].append(seq({"only": "limited", "autocheck": 1, "n": 6, "ops": 80, "seedoff": 212}, {"only": "limited", "autocheck": 1, "seedoff": 212}))
 REGISTRY["C13"]["teq"].append(seq({"only": "limited", "n": 10, "ops": 80, "seedoff": 113}, {"only": "limited", "seedoff": 113}))
 REGISTRY["C11"]["teq"].append(_f1(11))
+REGISTRY["C02"]["teq"].append({"engine": "failpath", "quick": {"n": 4, "burst_every": 1, "seedoff": 402}, "thorough": {"n": 40, "burst_every": 1, "seedoff": 402},
+                                "oracle": True, "mismatch_is_failure": False, "timeout": 3400,
+                                "nontrivial": lambda case, res: "failpath-burst" in case, "distinct_key": lambda case, res: case,
+                                "what": "bursts: 9-14 thousand one-block inserts pile up behind the buffer-full trigger, whose background passes span several journal batches and are still running when flush() is called; half of the bursts also fail one journal write once. flush() is repeated until it answers Ok; at that instant every accepted key must be published on the device (oracle on the live snapshot) and readable"})
 for _pid, _off in (("C09", 9), ("C05", 5)):
     REGISTRY[_pid]["teq"].append({"engine": "failpath", "quick": {"n": 60, "seedoff": 400 + _off}, "thorough": {"n": 2500, "seedoff": 400 + _off},
                                   "oracle": True, "mismatch_is_failure": True, "timeout": 3400,
